@@ -59,6 +59,47 @@ func init() {
 	classes := []string{"ascii", "ascii", "wide", "combining", "latin", "tabs"}
 	register(&prop{id: "C04",
 		gen: func(r *rand.Rand) Case {
+			if r.Intn(5) == 0 {
+				// redisplays while the completion engine shows candidates below the input and inserts them
+				// virtually in the buffer: the input area is still the prompt and the (visible) buffer, the cursor on its cell
+				w := []int{20, 30, 40, 80}[r.Intn(4)]
+				prompt := []string{"> ", "long$ "}[r.Intn(2)]
+				word := []string{"", "a", "ab"}[r.Intn(3)]
+				n := 2 + r.Intn(10)
+				var cands []Cand
+				for i := 0; i < n; i++ {
+					c := Cand{Value: "ab" + strings.Repeat("cdefghij", 3)[:r.Intn(9)] + fmt.Sprint(i)}
+					if r.Intn(2) == 0 {
+						c.Desc = fmt.Sprintf("description %d", i)
+					}
+					cands = append(cands, c)
+				}
+				sp := Spec{Prompt: prompt, Mode: "emacs", Runs: 1, Width: w, Height: 30, Completer: cands,
+					Binds: []Bind{{Seq: `\C-x\C-zq`, Cmd: "complete"}, {Seq: `\C-x\C-zr`, Cmd: "possible-completions"}, {Seq: `\C-x\C-zs`, Cmd: "menu-complete"}}}
+				cl := "completion"
+				if r.Intn(2) == 0 {
+					sp.Inputrc = "set history-autosuggest on\n"
+					cl += "/autosuggest"
+				}
+				// the input area is not always at the top of the screen: lines accepted by earlier calls are above it
+				// (a cursor sent too far up stops at the top row of a terminal, and the error with it)
+				pre := []int{0, 0, 3, 6, 10}[r.Intn(5)]
+				sp.Runs = pre + 1
+				var keys []string
+				for i := 0; i < pre; i++ {
+					keys = append(keys, "l", "\r")
+				}
+				for _, ch := range "x " + word {
+					keys = append(keys, string(ch))
+				}
+				// possible-completions (M-?) lists without inserting; TAB completes, then cycles; Shift-TAB goes back;
+				// a typed character or C-g closes the menu
+				for k := 2 + r.Intn(8); k > 0; k-- {
+					keys = append(keys, []string{"\t", "\t", "\t", "\x1b[Z", "\x1b?", "b", "\x07", "\x7f", "\x18\x1aq", "\x18\x1aq", "\x18\x1ar", "\x18\x1as", "\x13", "z"}[r.Intn(14)])
+				}
+				sp.Chunks = hexChunks(keys)
+				return Case{Specs: []Spec{sp}, Class: cl, Meta: map[string]string{"part": "completion", "class": cl, "pre": fmt.Sprint(pre)}}
+			}
 			w := 8 + r.Intn(25)
 			prompt := []string{"> ", "", "long$ ", "$ "}[r.Intn(4)]
 			class := classes[r.Intn(len(classes))]
@@ -90,7 +131,18 @@ func init() {
 			ghost := randCells(r, "ascii", ghostCells)
 			sp := Spec{Prompt: prompt, Mode: "emacs", Runs: 1, Width: w, Height: 12,
 				Inject: []Inject{{Seq: `\C-x\C-y0`, Line: ghost, Pos: r.Intn(len(ghost) + 1)}, {Seq: `\C-x\C-y1`, Line: text, Pos: pos}}}
-			sp.Chunks = hexChunks([]string{"\x18\x190", "\x18\x191"})
+			// one case in three: lines accepted by earlier calls are above the input area (a cursor sent too far up
+			// stops at the top row of a terminal and hides the error when the prompt is on that row)
+			pre := 0
+			var first []string
+			if r.Intn(3) == 0 {
+				pre = 4
+				sp.Runs = pre + 1
+				for i := 0; i < pre; i++ {
+					first = append(first, "l", "\r")
+				}
+			}
+			sp.Chunks = hexChunks(append(first, "\x18\x190", "\x18\x191"))
 			fit := "inside"
 			if (pw+total)%w == 0 && total > 0 {
 				fit = "exact-fit"
@@ -102,7 +154,7 @@ func init() {
 				ghosting = "after-shorter"
 			}
 			return Case{Specs: []Spec{sp}, Class: class + "/" + fit + "/" + ghosting,
-				Meta: map[string]string{"text": text, "pos": fmt.Sprint(pos), "class": class, "fit": fit, "ghost": ghosting}}
+				Meta: map[string]string{"text": text, "pos": fmt.Sprint(pos), "class": class, "fit": fit, "ghost": ghosting, "pre": fmt.Sprint(pre)}}
 		},
 		oracle: func(c Case, trs []Trace) []Finding {
 			tr := trs[0]
@@ -116,15 +168,113 @@ func init() {
 					return nil
 				}
 			}
+			if c.Meta["part"] == "completion" {
+				sp := c.Specs[0]
+				var pre int
+				fmt.Sscan(c.Meta["pre"], &pre)
+				start := 0
+				if pre > 0 {
+					if len(tr.Results) < pre || tr.Results[pre-1].Err != "" {
+						stat("skipped: the earlier calls did not return")
+						return nil
+					}
+					start = tr.Results[pre-1].NWaits
+				}
+				if start >= len(tr.Waits) || tr.Waits[start].Line != "" {
+					stat("skipped: the last call did not start")
+					return nil
+				}
+				base := tr.Waits[start]
+				for k := start + 1; k < len(tr.Waits) && k <= len(sp.Chunks); k++ {
+					w := tr.Waits[k]
+					if w.Kind != "main" {
+						stat("skipped: a command reads a key")
+						return nil
+					}
+					if w.Local == "isearch" {
+						stat("not decided: the buffer of this wait is the search minibuffer")
+						continue
+					}
+					text := []rune(w.Line)
+					if w.Pos < 0 || w.Pos > len(text) {
+						continue
+					}
+					wantScreen, wantCur := reference(sp.Width, sp.Height, sp.Prompt, text, w.Pos)
+					for len(wantScreen) > 0 && strings.TrimRight(wantScreen[len(wantScreen)-1], " ") == "" {
+						wantScreen = wantScreen[:len(wantScreen)-1]
+					}
+					// nothing scrolls on the 30 rows: the input area starts on the row where the call started (the rows above
+					// hold the lines of the earlier calls, and stay as they were)
+					check := func(screen, before []string, cur, cur0 [2]int) string {
+						dy := cur0[0]
+						if len(screen) < dy+len(wantScreen) || len(before) < dy {
+							return "screen"
+						}
+						for i := 0; i < dy; i++ {
+							if screen[i] != before[i] {
+								return "rows-above"
+							}
+						}
+						for i := range wantScreen {
+							if strings.TrimRight(screen[dy+i], " ") != strings.TrimRight(wantScreen[i], " ") {
+								return "screen"
+							}
+						}
+						if cur != [2]int{wantCur[0] + dy, wantCur[1]} {
+							return "cursor"
+						}
+						return ""
+					}
+					stat("decided: redisplay with the completion engine active")
+					eV, eX := check(w.VTE, base.VTE, w.CurVTE, base.CurVTE), check(w.Xterm, base.Xterm, w.CurXT, base.CurXT)
+					if eV != "" && eX != "" {
+						return []Finding{{"C04", eV + "-differs/" + c.Meta["class"], fmt.Sprintf("width %d prompt %q, after keys %q the buffer is %q pos %d\nwant cursor %v rows %q, from the row of the prompt\nvte   cursor %v screen %q\nxterm cursor %v screen %q", sp.Width, sp.Prompt, unhex(sp.Chunks[:k]), w.Line, w.Pos, wantCur, wantScreen, w.CurVTE, w.VTE, w.CurXT, w.Xterm), c}}
+					}
+				}
+				return nil
+			}
 			sp := c.Specs[0]
 			var pos int
 			fmt.Sscan(c.Meta["pos"], &pos)
 			text := []rune(c.Meta["text"])
-			w := tr.Waits[2]
+			var pre int
+			fmt.Sscan(c.Meta["pre"], &pre)
+			start := 0
+			if pre > 0 {
+				if len(tr.Results) < pre || tr.Results[pre-1].Err != "" {
+					stat("skipped: the earlier calls did not return")
+					return nil
+				}
+				start = tr.Results[pre-1].NWaits
+			}
+			if start+2 >= len(tr.Waits) {
+				stat("skipped: state not injected")
+				return nil
+			}
+			base := tr.Waits[start]
+			w := tr.Waits[start+2]
 			if w.Line != string(text) {
 				stat("skipped: state not injected")
 				return nil
 			}
+			// the rows above the row where this call started are what they were, and are left out of what follows
+			above := func(screen, before []string, cur, cur0 [2]int) ([]string, [2]int, bool) {
+				if pre == 0 {
+					return screen, cur, true
+				}
+				dy0 := cur0[0]
+				if len(screen) < dy0 || len(before) < dy0 || cur[0] < dy0 {
+					return screen, cur, false
+				}
+				for i := 0; i < dy0; i++ {
+					if screen[i] != before[i] {
+						return screen, cur, false
+					}
+				}
+				return screen[dy0:], [2]int{cur[0] - dy0, cur[1]}, true
+			}
+			vteS, vteC, okAboveV := above(w.VTE, base.VTE, w.CurVTE, base.CurVTE)
+			xtS, xtC, okAboveX := above(w.Xterm, base.Xterm, w.CurXT, base.CurXT)
 			wantScreen, wantCur := reference(sp.Width, sp.Height, sp.Prompt, text, pos)
 			trim := func(s []string) []string {
 				for len(s) > 0 && strings.TrimRight(s[len(s)-1], " ") == "" {
@@ -152,14 +302,18 @@ func init() {
 				}
 				return eqLines(area, wantScreen), cur[1] == wantCur[1]
 			}
-			sV, cV := match(w.VTE, w.CurVTE)
-			sX, cX := match(w.Xterm, w.CurXT)
+			sV, cV := match(vteS, vteC)
+			sX, cX := match(xtS, xtC)
+			sV, sX = sV && okAboveV, sX && okAboveX
 			okV, okX := sV && cV, sX && cX
 			stat("decided")
 			if okV && okX {
 				return nil
 			}
 			sig := c.Meta["class"] + "/" + c.Meta["fit"] + "/" + c.Meta["ghost"]
+			if pre > 0 {
+				sig += "/below-earlier-lines"
+			}
 			what := "screen"
 			if sV && sX {
 				what = "cursor"
